@@ -81,10 +81,11 @@ type Cred struct {
 func (c *Cred) Name() string { return fmt.Sprintf("%s#%d", c.Kind, c.N) }
 
 type Ledger struct {
-	Grants []*Grant
-	Creds  []*Cred
-	ByVal  map[string]*Cred
-	K      *Knobs
+	Grants             []*Grant
+	Creds              []*Cred
+	ByVal              map[string]*Cred
+	K                  *Knobs
+	ShortCurrentSecret bool // see Expect
 }
 
 func NewLedger(k *Knobs) *Ledger { return &Ledger{ByVal: map[string]*Cred{}, K: k} }
@@ -145,6 +146,11 @@ func (l *Ledger) SelectFromEnd(sel int, kinds ...string) *Cred {
 
 // Expect answers: at instant now, must this credential be honoured, must it be refused, or is it unspecified?
 func (l *Ledger) Expect(c *Cred, now time.Time) (Expectation, []string) {
+	if l.ShortCurrentSecret && strings.Count(c.Val, ".") == 1 && (c.Kind == "at" || c.Kind == "rt" || c.Kind == "code") {
+		// the configured global secret is shorter than 32 bytes: it is refused, and with it every validation of an opaque
+		// credential (the current secret is the first one tried) - until the operator configures a proper one again
+		return MustNot, []string{"C06"}
+	}
 	if c.Unspec || (c.G != nil && c.G.Unspec) {
 		// what faults or unspecified interactions did to the server-side state is unknowable - but nothing makes a credential
 		// outlive the lifetime it was issued with (C07 holds at every point of every history)
